@@ -16,7 +16,26 @@ record through every entry point and must be written back character by character
 comment:non-ascii).  Documents with a non-ASCII comment go through the string and list entry points only (str, str_nl,
 list take the places of file_lf / file_crlf in the rotation): what a file holds for such a character depends on the
 locale's encoding, which is not this property's business.  A bare CR inside a line is not generated (a text file read
-with universal newlines ends a line there).  The other cases are the ones generated before.
+with universal newlines ends a line there).
+Every 8th case (case number = 1 mod 8) is a document of the usual kind, one to three lines of which (any record type,
+H lines and custom records included; a header tag may be given on two H lines) carry one more tag whose NUMBER lies at
+an edge of what number formats hold, spelled as the grammar allows (tags(): number:extreme, and number:f>float32,
+number:f-edge, number:i-wide, number:B-f-wide, number:J-wide for what the case has):
+  f   beyond the single-precision range (3.5e38, -1e39, 3.4028235e+38, 7.25e+40, 1e300, the largest double, an integer
+      of 39 digits, ...): GFA's f is the float of the regular expression, gfapy reads it as a Python float, and
+      nothing in the specification bounds it by 3.4028234663852886e+38;
+      at the edges of single and double precision (the largest single-precision value itself, 1.1754943508222875e-38,
+      1e-39, 1e-46, 5e-324, 1e-320, 16777217.0, 1.0000000000000002, 0.1, 2**53+1, 1e-400 which is 0.0 for everybody);
+  i   beyond 32 and 64 bits (2**31, 2**32, 2**63, 2**64, +-10**30);
+  B   float arrays with such elements;       J   JSON values with such numbers.
+Each of them must come back as the same number, in a line that is not flagged, and the written text must parse again.
+One in eight of these cases (number:f-overflow) instead takes f values / B:f elements that match the grammar but
+exceed the DOUBLE range (1e400, -1e999, 1.8e308, a 1 with 309 zeros).  Here the demand is weaker, because what a valid
+document is can be argued about: gfapy may refuse the document (gfapy.Error, at any level) -- but if it accepts it, it must
+write it back as above.  Failures of these cases carry the signature prefix `f-overflow/`: on the pinned tree
+`S\t1\t*\txx:f:1e400` is accepted at levels 0-2 and written as `S\t1\t*\tinf\t# INVALID; errors found in fields: xx`,
+which does not parse again (level 3 refuses it with a ValueError when it is read).
+The other cases are the ones generated before.
 
 Oracle (real library only).  A valid document T (props/_docgen.py) is parsed through every entry point
   str      Gfa("\\n".join(lines))            str_nl   the same text with the final newline a file has
@@ -56,7 +75,11 @@ ID = "C01"
 RULE = ("grammar-directed valid GFA1/GFA2 documents (all record types incl. custom records, in a quarter of the cases "
         "with record types of several characters incl. ones made of predefined codes like SEG/GU/H#/LC, in an eighth of the "
         "cases with comments that contain VT, FF, 0x1C-0x1E, U+0085, U+2028 or U+2029 -- line boundaries for str.splitlines(), "
-        "ordinary characters for GFA --, all 7 tag datatypes in "
+        "ordinary characters for GFA --, in an eighth of the cases with 1-3 additional tags whose numbers lie at the edges of "
+        "the number formats (f beyond the single-precision range such as 3.5e38 / -1e39 / 1e300 / the largest double, f at the "
+        "edges of single and double precision, i beyond 32 and 64 bits, B:f arrays and J values with such numbers; one in "
+        "eight of those with f values beyond the double range, 1e400, which may be refused but not written as an invalid line: "
+        "signature prefix f-overflow/), all 7 tag datatypes in "
         "canonical and non-canonical spellings, placeholders, self-links, hairpins, parallel edges, both complement "
         "forms, containments, nested groups, shuffled order), <=12 lines (quick) / <=40 (thorough), each through 5 entry "
         "points x 4 validation levels x explicit/automatic version, plus every line alone through gfapy.Line. "
@@ -90,9 +113,33 @@ def has_boundary_char(line):
     return any(c in line for c in BOUNDARY_ASCII + BOUNDARY_WIDE)
 
 
+# numbers at the edges of the number formats, in spellings of the GFA grammar (see the module docstring)
+FLT_MAX32 = 3.4028234663852886e+38
+F_BEYOND32 = ["3.5e38", "-1e39", "1e300", "3.4028235e+38", "-3.4028236e38", "7.25e+40", "4e38", "1e39", "-4E+38", "+3.5e38",
+              "1.7976931348623157e308", "-1.7976931348623157E+308", "340282350000000000000000000000000000000",
+              "12345678901234567890123456789012345678901234567890.5", "-1e300", "2.5e+200", "350000000000000000000000000000000000000.0"]
+F_EDGE = ["3.4028234663852886e+38", "-3.4028234663852886e+38", "3.4e38", "1.1754943508222875e-38", "1e-39", "-1e-46", "5e-324",
+          "2.2250738585072014e-308", "1e-320", "16777217.0", "1.0000000000000002", "0.1", "9007199254740993",
+          "123456789012345678901234567890", "-0.000000000000000000000000000000000000000000001", "1e-400", "4.9e-324",
+          "0.30000000000000004", "1e22", "1e23", "-1.7976931348623157e-308"]
+I_WIDE = ["2147483647", "2147483648", "-2147483649", "4294967296", "9223372036854775807", "9223372036854775808",
+          "-9223372036854775809", "18446744073709551616", "+18446744073709551615", "1000000000000000000000000000000",
+          "-1000000000000000000000000000000"]
+B_F_WIDE = ["f,3.5e38,1e300", "f,-1e39", "f,1.7976931348623157e308,5e-324", "f,3.4028235e+38,1", "f,16777217.0,0.1", "f,1e-46,-4e38",
+            "f,1.0000000000000002", "f,1e-400,7.25e+40"]
+J_WIDE = ['[1e300, 3.5e38]', '{"big": 18446744073709551616, "tiny": 5e-324}', '[-1e39, 1.0000000000000002]',
+          '[123456789012345678901234567890]', '[1.7976931348623157e308]', '{"a": [16777217.0, 0.1, -4e38]}']
+F_OVERFLOW = ["1e400", "-1e999", "1.8e308", "-1.8E+308", "1.7976931348623159e308", "1" + "0" * 309, "+1e309"]
+B_F_OVERFLOW = ["f,1e400", "f,1.5,-1e999", "f,1.8e308,2"]
+# names of the added tags, by datatype (none of them in D.TAGNAMES; a header tag repeated over H lines keeps its datatype)
+EXTREME_NAMES = {"f": ["fx", "fy", "fz"], "i": ["ix", "iy"], "B": ["bx", "by"], "J": ["jx", "jy"]}
+
+
 def gen_case(rng, tier, i):
     if i % 8 == 5:
         return gen_boundary_case(rng, tier, i)
+    if i % 8 == 1:
+        return gen_extreme_case(rng, tier, i)
     ml = rng.choice([4, 6, 8, 12, 12]) if tier == "quick" else rng.choice([8, 12, 20, 30, 40])
     # every 4th case draws the record types of its custom records from the wide pool (several characters, made
     # of / extending predefined codes, ...) and has more custom records; decided by the case number, so that the
@@ -123,6 +170,59 @@ def gen_boundary_case(rng, tier, i):
     feats = sorted(set(d["features"] + ["comment:line-boundary-char"] +
                        (["comment:non-ascii"] if any(ord(ch) > 127 for l in lines for ch in l) else [])))
     return {"version": d["version"], "lines": lines, "features": feats, "rot": rng.randrange(4)}
+
+
+def _extreme_tag(rng, overflow):
+    """(datatype, value, feature)"""
+    if overflow:
+        if rng.random() < 0.75:
+            return "f", rng.choice(F_OVERFLOW), "number:f-overflow"
+        return "B", rng.choice(B_F_OVERFLOW), "number:f-overflow"
+    k = rng.random()
+    if k < 0.45:
+        return "f", rng.choice(F_BEYOND32), "number:f>float32"
+    if k < 0.65:
+        return "f", rng.choice(F_EDGE), "number:f-edge"
+    if k < 0.78:
+        return "i", rng.choice(I_WIDE), "number:i-wide"
+    if k < 0.9:
+        return "B", rng.choice(B_F_WIDE), "number:B-f-wide"
+    return "J", rng.choice(J_WIDE), "number:J-wide"
+
+
+def gen_extreme_case(rng, tier, i):
+    """a document of the usual kind; one to three of its lines get one more tag with a number at an edge of the number
+    formats (one case in eight: beyond the double range)"""
+    ml = rng.choice([4, 6, 8, 12, 12]) if tier == "quick" else rng.choice([8, 12, 20, 30, 40])
+    d = D.gen_doc(rng, max_lines=ml, same_id_groups=False)
+    lines = list(d["lines"])
+    version = d["version"]
+    overflow = rng.random() < 1 / 8.0
+    # a link given in both complement forms keeps identical tags on both lines: such lines are left alone
+    canon = {}
+    for j, l in enumerate(lines):
+        if l.split("\t")[0] == "L" and version == "gfa1":
+            canon.setdefault(D.record_keys(l, version)[0][1], []).append(j)
+    twice = set(j for js in canon.values() if len(js) > 1 for j in js)
+    cand = [j for j, l in enumerate(lines) if not l.startswith("#") and j not in twice]
+    if not cand:
+        lines.append("H")
+        cand = [len(lines) - 1]
+    feats = ["number:extreme"]
+    for _ in range(rng.choice([1, 1, 2, 3])):
+        j = rng.choice(cand)
+        t, v, feat = _extreme_tag(rng, overflow)
+        have = set(m.group(1) for m in (D.TAG_RE.match(f) for f in lines[j].split("\t")[1:]) if m)
+        names = [n for n in EXTREME_NAMES[t] if n not in have]
+        if not names:
+            continue
+        lines[j] += "\t%s:%s:%s" % (rng.choice(names), t, v)
+        feats.append(feat)
+    return {"version": version, "lines": lines, "features": sorted(set(d["features"] + feats)), "rot": rng.randrange(4)}
+
+
+def is_overflow_case(case):
+    return "number:f-overflow" in case.get("features", [])
 
 
 def nontrivial(case):
@@ -218,6 +318,8 @@ def oracle(case):
     # a non-ASCII character (only comments have them) is in a file whatever the locale's encoding makes of it: such
     # documents go through the string and list entry points only
     ascii_only = all(ord(ch) < 128 for l in lines for ch in l)
+    # an f value beyond the double range: the document may be refused (gfapy.Error), see the module docstring
+    overflow = is_overflow_case(case)
     combo = 0
     for ver in (version, None):
         for vlevel in (1, 0, 2, 3):
@@ -238,6 +340,8 @@ def oracle(case):
                 try:
                     g = _build(gfapy, entry, lines, vlevel, ver)
                 except Exception as e:  # noqa
+                    if overflow and isinstance(e, gfapy.Error):
+                        continue
                     if entry == "str":
                         str_failed = True
                     if entry == "str_nl" and str_failed:
@@ -310,10 +414,14 @@ def oracle(case):
                     ln = gfapy.Line(s, vlevel=vlevel, version=ver)
                     out = str(ln)
                 except Exception as e:  # noqa
+                    if overflow and isinstance(e, gfapy.Error):
+                        continue
                     add("line-rejected[%s]: %s" % (e.__class__.__name__, _first(e)), cfg)
                     continue
                 for f in compare_text([out], kin, version, prefix="line-"):
                     add(f, cfg)
+    if overflow:
+        return ["f-overflow/" + f for f in seen.values()]
     return list(seen.values())
 
 
